@@ -1033,7 +1033,10 @@ def broadcast_shapes(*shapes):
 def _elemwise_handle_where(*args, **kwargs):
     function = kwargs.pop("elemwise_where_function")
     *args, where, out = args
-    if hasattr(out, "copy"):
+    if isinstance(out, np.generic):
+        # a 0-d block arrives as a numpy scalar, which ufuncs reject as ``out=``
+        out = np.array(out)
+    elif hasattr(out, "copy"):
         out = out.copy()
     return function(*args, where=where, out=out, **kwargs)
 
